@@ -8,10 +8,10 @@ use std::collections::{BTreeMap, BTreeSet};
 
 use vx_bounded::cli;
 
-const SCHEMA: &str = "type Query { k: K l: L p: P j: J m: M i2: I2 u: U v: V w: W a1: A1 b1: B1 c1: C1 x: Int arg(req: Int!, opt: Int, e: E, i: I, l: [Int!]): Int }\n\
+const SCHEMA: &str = "type Query { k: K l: L p: P j: J m: M i2: I2 u: U v: V w: W a1: A1 b1: B1 c1: C1 x: Int arg(req: Int!, opt: Int, e: E, i: I, l: [Int!]): Int arg2(opt: Int, req: Int!, last: Int): Int arg3(l: [ID!], m: [[Int!]], n: [String!]! = [], o: [I!]): Int }\n\
 interface A1 { a: Int }\ninterface B1 { a: Int }\ninterface C1 implements A1 & B1 { a: Int }\ntype OA implements A1 { a: Int }\ntype OB implements B1 { a: Int }\n\
 type Subscription { a: Int b: Int c(n: Int): K }\n\
-type Mutation { mu: Int }\nenum E { A B }\ninput I { r: Int! o: Int }\ndirective @once on FIELD\ndirective @many repeatable on FIELD | QUERY\ndirective @onq on QUERY\n\
+type Mutation { mu: Int }\nenum E { A B }\ninput I { r: Int! o: Int }\ndirective @once on FIELD\ndirective @many repeatable on FIELD | QUERY\ndirective @onq on QUERY\ndirective @tag2(label: String, id: ID!, l: [ID!]) on FIELD\n\
 interface J { id: ID }\ninterface M implements J { id: ID mm: Int }\ninterface I2 { z: Int }\n\
 type K implements J { id: ID kk: Int }\ntype L { ll: Int }\ntype P implements M & J { id: ID mm: Int }\n\
 union U = K | L\nunion V = L\nunion W = P\n";
@@ -208,6 +208,21 @@ fn rule_cases() -> Vec<Case> {
     add("required arguments are supplied", "{ arg(opt: 1) }", false);
     add("required arguments are supplied", "{ arg(req: null) }", false);
     add("required arguments are supplied", "{ arg(req: 1) }", true);
+    add("required arguments are supplied", "{ arg2(opt: 1) }", false);
+    add("required arguments are supplied", "{ arg2(last: 1) }", false);
+    add("required arguments are supplied", "{ arg2(opt: 1, last: 2) }", false);
+    add("required arguments are supplied", "{ arg2(req: 1) arg2b: arg2(opt: null, req: 2, last: 3) }", true);
+    add("required arguments are supplied", "{ x @tag2(label: \"x\") }", false);
+    add("required arguments are supplied", "{ x @tag2(id: 1) @skip(if: false) }", true);
+    add("nullable arguments may be omitted", "{ arg3 }", true);
+    add("nullable arguments may be omitted", "{ arg3(l: null, m: null, o: null) }", true);
+    add("nullable arguments may be omitted", "{ arg3(m: [[1], null]) x @tag2(id: \"a\") }", true);
+    add("nullable arguments may be omitted", "{ arg3(n: null) }", false);
+    add("variables inside list and object literals", "query Q($a: Int!) { arg(req: 1, l: [$a]) }", true);
+    add("variables inside list and object literals", "query Q($a: Int!, $b: ID!) { arg(req: 1, l: [1, $a, 2]) arg3(l: [$b], m: [[$a], [1, $a]], o: [{r: $a}]) }", true);
+    add("variables inside list and object literals", "query Q($a: Int) { arg(req: 1, l: [$a]) }", false);
+    add("variables inside list and object literals", "query Q($a: String!) { arg3(m: [[$a]]) }", false);
+    add("variables inside list and object literals", "query Q($b: ID!) { x @tag2(id: $b, l: [$b, \"c\"]) }", true);
     add("literal values match the declared type", "{ arg(req: \"s\") }", false);
     add("literal values match the declared type", "{ arg(req: 1, e: C) }", false);
     add("literal values match the declared type", "{ arg(req: 1, i: {o: 1}) }", false);
